@@ -83,6 +83,7 @@ def plan(tier, seed):
     scs = [dict(part='A', a=i) for i in range(len(ELS))]
     scs += [dict(part='C', cell=ci, pair=pi) for ci in range(len(NCELLS)) for pi in range(len(NPAIRS))]
     scs += [dict(part='D', far=i) for i in range(len(FAR))] + [dict(part='D', big=i) for i in range(len(BIG))]
+    scs += [dict(part='H', cell=ci, cl=k, h=h) for ci in range(len(GCELLS)) for k in range(4) for h in range(5)]
     shifts = 4 if tier == 'quick' else 10
     places = PLACEMENTS[::4] if tier == 'quick' else PLACEMENTS
     scs += [dict(part='B', cell=ci, cl=k, place=list(pl)) for ci in range(len(GCELLS)) for k in range(4) for pl in places]
@@ -221,6 +222,36 @@ def run(sc, ctx):
             out['violations'].append(viol('assembly', 'big-set', '%s: %d bonds by the rule, %d detected; %d missing %r, %d spurious %r (of the differing pairs %d join atoms more than 1024 places apart)' % (
                 name, len(es), len(gs), len(es - gs), sorted(es - gs)[:3], len(gs - es), sorted(gs - es)[:3], len(far)), sc))
         out['outcomes']['big bonds>1024 apart=%s' % (any(abs(i - j) > 1024 for i, j in exp))] = 1; out['nontrivial'] += 1
+        return out
+    if sc['part'] == 'H':
+        # histories: bonds were detected on the object before; then its cell or coordinates changed (or a replica / fragment was taken):
+        # the next detection must be that of the current content
+        cname, cell = GCELLS[sc['cell']]
+        els, pts = clusters(ctx['seed'])[sc['cl']]
+        pos = wrap(pts + np.array([0.97, 0.03, 0.5]) @ cell, cell)
+        s = mkatoms(els, pos, cell)
+        call(lambda: detect_bonds(s))
+        h = sc['h']
+        if h == 0:
+            t = s.replicate((2, 1, 1)); what = 'detected, replicated 2x1x1, detected in the replica'
+        elif h == 1:
+            s.cell = np.asarray(s.cell, float) * np.array([[1.0], [2.0], [1.0]]); t = s; what = 'detected, cell doubled along b, detected again'
+        elif h == 2:
+            s.positions[:] = wrap(np.asarray(s.positions) + np.array([0.4, 0.3, 0.2]) @ cell, cell); t = s; what = 'detected, shifted and wrapped in place, detected again'
+        elif h == 3:
+            t = mkatoms(els, np.asarray(s.positions).copy(), None); what = 'detected in the periodic structure, then in the same atoms without a cell'
+        else:
+            t = s.copy(); t.cell = np.asarray(t.cell, float) * 3.0; what = 'detected, copy() with a three times larger cell, detected in the copy'
+        tcell = None if t.cell is None else np.asarray(t.cell, float); tels = [str(x) for x in t.elements]
+        exp, gray = ref_bonds(np.asarray(t.positions, float), tels, tcell, margin=1e-6) if len(tels) <= 12 else ref_bonds_fast(np.asarray(t.positions, float), tels, tcell, margin=1e-6)
+        got, err = call(lambda: detect_bonds(t))
+        out['evals'] += 2; out['compared'] += 1; out['hashes'].add(h64(('H', sc['cell'], sc['cl'], h)))
+        if err:
+            out['violations'].append(viol('assembly', 'history-exc:' + exc_sig(err), '%s (%s): raised %r' % (what, cname, err[0]), sc)); return out
+        gp = [p for p in as_pairs(got) if p not in gray]
+        if sorted(gp) != [p for p in sorted(exp) if p not in gray]:
+            out['violations'].append(viol('assembly', 'history', '%s (%s, assembly %s): detected %r, the rule says %r' % (what, cname, els, sorted(gp), sorted(exp)), sc))
+        out['outcomes']['history bonds=%d' % len(exp)] = 1; out['nontrivial'] += 1
         return out
     # ---- part B
     cname, cell = GCELLS[sc['cell']]
